@@ -153,3 +153,68 @@ Proof.
     + intros H xs E. apply (H (mkEntry EEvent name xs [])). rewrite E. reflexivity.
     + intros H e E. destruct (convertFFIParamsToABIParameters params) as [i|?|] eqn:Ei; cbn [bind] in E; try discriminate. apply (H i). reflexivity.
 Qed.
+
+(* ---------- parameter lists with nil entries ("params":[null]) ---------- *)
+
+Lemma opt_params_some l : convertFFIParamsToABIParameters_opt (map Some l) = convertFFIParamsToABIParameters l.
+Proof. induction l as [|p r IH]; cbn; [reflexivity|]. rewrite IH. reflexivity. Qed.
+
+Lemma opt_params_total l : convertFFIParamsToABIParameters_opt l <> Panic.
+Proof.
+  induction l as [|[p|] l IH]; cbn; try discriminate.
+  pose proof (convertFFIParam_total p) as T.
+  destruct (convertFFIParam p); cbn; try congruence.
+  destruct (convertFFIParamsToABIParameters_opt l); cbn; congruence.
+Qed.
+
+Lemma opt_params_nil_rejected l : In None l -> exists e, convertFFIParamsToABIParameters_opt l = Err e.
+Proof.
+  induction l as [|[p|] l IH]; cbn; intros H.
+  - destruct H.
+  - destruct H as [H|H]; [discriminate|]. destruct (IH H) as [e E]. rewrite E.
+    pose proof (convertFFIParam_total p) as T.
+    destruct (convertFFIParam p); cbn; eauto. congruence.
+  - eauto.
+Qed.
+
+Theorem conversion_total_nil_params :
+  forall (name : bytes) (params returns : list (option pin)),
+    ConvertFFIMethodToABI_opt name params returns <> Panic /\
+    ConvertFFIEventDefinitionToABI_opt name params <> Panic /\
+    ConvertFFIErrorDefinitionToABI_opt name params <> Panic.
+Proof.
+  intros. unfold ConvertFFIMethodToABI_opt, ConvertFFIEventDefinitionToABI_opt, ConvertFFIErrorDefinitionToABI_opt.
+  pose proof (opt_params_total params) as T1.
+  pose proof (opt_params_total returns) as T2.
+  destruct (convertFFIParamsToABIParameters_opt params); cbn; try congruence;
+    repeat split; try discriminate.
+  destruct (convertFFIParamsToABIParameters_opt returns); cbn; congruence.
+Qed.
+
+(* a definition with a nil entry anywhere is an error, and one without is converted as before *)
+Theorem nil_param_rejected :
+  forall (name : bytes) (params returns : list (option pin)),
+    (In None (params ++ returns) -> exists e, ConvertFFIMethodToABI_opt name params returns = Err e) /\
+    (In None params -> exists e, ConvertFFIEventDefinitionToABI_opt name params = Err e) /\
+    (In None params -> exists e, ConvertFFIErrorDefinitionToABI_opt name params = Err e).
+Proof.
+  intros. unfold ConvertFFIMethodToABI_opt, ConvertFFIEventDefinitionToABI_opt, ConvertFFIErrorDefinitionToABI_opt.
+  split; [|split].
+  - intros H. apply in_app_or in H. destruct H as [H|H].
+    + destruct (opt_params_nil_rejected _ H) as [e E]. rewrite E. cbn. eauto.
+    + destruct (opt_params_nil_rejected _ H) as [e E]. rewrite E.
+      pose proof (opt_params_total params) as T.
+      destruct (convertFFIParamsToABIParameters_opt params); cbn; eauto. congruence.
+  - intros H. destruct (opt_params_nil_rejected _ H) as [e E]. rewrite E. cbn. eauto.
+  - intros H. destruct (opt_params_nil_rejected _ H) as [e E]. rewrite E. cbn. eauto.
+Qed.
+
+Theorem opt_conversions_some :
+  forall (name : bytes) (params returns : list pin),
+    ConvertFFIMethodToABI_opt name (map Some params) (map Some returns) = ConvertFFIMethodToABI name params returns /\
+    ConvertFFIEventDefinitionToABI_opt name (map Some params) = ConvertFFIEventDefinitionToABI name params /\
+    ConvertFFIErrorDefinitionToABI_opt name (map Some params) = ConvertFFIErrorDefinitionToABI name params.
+Proof.
+  intros. unfold ConvertFFIMethodToABI_opt, ConvertFFIEventDefinitionToABI_opt, ConvertFFIErrorDefinitionToABI_opt.
+  rewrite !opt_params_some. repeat split.
+Qed.
